@@ -7,6 +7,55 @@ Open Scope Z_scope.
 
 Definition is_yield {A} (o : outcome A) : bool := match o with Yield _ => true | _ => false end.
 
+(** the body of PArrayIndex.__next__ inside its try block (Step.step, clause PArrayIndex, verbatim): outcome, new list, new index *)
+Definition arrayindex_body (value : nat -> arg -> outcome val * arg) (f : nat) (list index : arg) : outcome val * arg * arg :=
+          match list with
+          | AL l =>
+              let '(oi, index') := value f index in
+              match oi with
+              | Yield VNone => (Yield VNone, list, index')
+              | Yield vi =>
+                  match py_int vi with
+                  | Yield (VInt i) =>
+                      match py_index l i with
+                      | None => (Raise IndexError, list, index')
+                      | Some a =>
+                          let '(o, a') := value f a in      (* return Pattern.value(list[index]) *)
+                          (o, (AL (update_nth (py_index_pos l i) a' l)), index')
+                      end
+                  | Yield _ => (Inexact, list, index')
+                  | o => (o, list, index')
+                  end
+              | _ => (oi, list, index')
+              end
+          | _ =>
+              let '(ol, list') := value f list in
+              match ol with
+              | Yield vl =>
+                  let '(oi, index') := value f index in
+                  match oi with
+                  | Yield VNone => (Yield VNone, list', index')
+                  | Yield vi =>
+                      match py_int vi with
+                      | Yield (VInt i) =>
+                          match vl with
+                          | VList l | VTup l =>
+                              match py_index l i with
+                              | None => (Raise IndexError, list', index')
+                              | Some v => (Yield v, list', index')
+                              end
+                          | VStr _ | VDict _ => (Inexact, list', index')
+                          | _ => (Raise TypeError, list', index')
+                          end
+                      | Yield _ => (Inexact, list', index')
+                      | o => (o, list', index')
+                      end
+                  | _ => (oi, list', index')
+                  end
+              | _ => (ol, list', index)
+              end
+          end.
+
 Section Eqns.
   Variable binop : op -> val -> val -> outcome val.
   Variable LMAX : nat.
@@ -27,6 +76,75 @@ Section Eqns.
   Proof. reflexivity. Qed.
 
   Lemma step_constant f c : step (S f) (PConstant c) = (Yield c, PConstant c).
+  Proof. reflexivity. Qed.
+
+  (** PArrayIndex (repaired, C09-parrayindex-revives): exhausted once its __next__ has raised StopIteration *)
+  Lemma step_arrayindex_unfold f list index e :
+    step (S f) (PArrayIndex list index e) =
+      if e then (Stop, PArrayIndex list index e)
+      else let '(o, l1, i1) := arrayindex_body value f list index in (o, PArrayIndex l1 i1 (is_stop o)).
+  Proof. reflexivity. Qed.
+
+  Lemma arrayindex_body_list_eq f l index :
+    arrayindex_body value f (AL l) index =
+      (let '(oi, index') := value f index in
+       match oi with
+       | Yield VNone => (Yield VNone, AL l, index')
+       | Yield vi =>
+           match py_int vi with
+           | Yield (VInt i) =>
+               match py_index l i with
+               | None => (Raise IndexError, AL l, index')
+               | Some a => let '(o, a') := value f a in (o, AL (update_nth (py_index_pos l i) a' l), index')
+               end
+           | Yield _ => (Inexact, AL l, index')
+           | o => (o, AL l, index')
+           end
+       | _ => (oi, AL l, index')
+       end).
+  Proof. reflexivity. Qed.
+
+  Definition arrayindex_pick (vl : val) (oi : outcome val) : outcome val :=
+    match oi with
+    | Yield VNone => Yield VNone
+    | Yield vi =>
+        match py_int vi with
+        | Yield (VInt i) =>
+            match vl with
+            | VList l | VTup l => match py_index l i with None => Raise IndexError | Some v => Yield v end
+            | VStr _ | VDict _ => Inexact
+            | _ => Raise TypeError
+            end
+        | Yield _ => Inexact
+        | o => o
+        end
+    | _ => oi
+    end.
+
+  Lemma arrayindex_body_gen f a b : (forall l, a <> AL l) ->
+    arrayindex_body value f a b =
+      (let '(oa, a') := value f a in
+       match oa with
+       | Yield va => let '(ob, b') := value f b in (arrayindex_pick va ob, a', b')
+       | _ => (oa, a', b)
+       end).
+  Proof.
+    intro Hn. destruct a; try (exfalso; eapply Hn; reflexivity);
+      (unfold arrayindex_body; destruct (value f _) as [oa a']; destruct oa; try reflexivity;
+       destruct (value f b) as [ob b']; destruct ob as [vb| | | |]; try reflexivity;
+       destruct vb; try reflexivity; unfold arrayindex_pick;
+       repeat match goal with |- context [match ?x with _ => _ end] => destruct x end; reflexivity).
+  Qed.
+
+  (* a StopIteration leaves it exhausted; exhausted, it raises StopIteration for ever and does not change *)
+  Lemma arrayindex_stop f list index e p' : step f (PArrayIndex list index e) = (Stop, p') ->
+    exists l' i', p' = PArrayIndex l' i' true.
+  Proof.
+    destruct f as [|f]; [discriminate|]. rewrite step_arrayindex_unfold. destruct e.
+    - intro H. inversion H. eauto.
+    - destruct (arrayindex_body value f list index) as [[o l1] i1]. intro H. inversion H; subst. cbn. eauto.
+  Qed.
+  Lemma arrayindex_exhausted_stable f list index : step (S f) (PArrayIndex list index true) = (Stop, PArrayIndex list index true).
   Proof. reflexivity. Qed.
 
   (** the three operator node classes, clause by clause *)
